@@ -99,6 +99,8 @@ def obj_digest(o, light=False):
             continue
         if isinstance(o, Component) and pd.name in o.DIMENSION_NAMES:
             continue  # dimensions are digested below, resolved
+        if isinstance(o, Component) and pd.name == "volume":
+            continue  # lazily refreshed cache of a derived quantity: observed through getVolume() below
         params[pd.name] = _plain(v)
     d["params"] = params
     if isinstance(o, Component):
